@@ -8,14 +8,15 @@ EXTENDS Integers, Sequences, FiniteSets, TLC
 
 \* --------------------------------------------------------------------------------- logical characters and their encodings
 \* a text is a sequence of logical characters (one-character strings, or the names below)
-Special == {"&", "<", ">", "'", "\"", "EACUTE", "SMILE"}
-Lit(ch) == CASE ch = "EACUTE" -> "{c3}{a9}" [] ch = "SMILE" -> "{f0}{9f}{98}{80}" [] OTHER -> ch
+\* NBSP / IDSP: the no-break space U+00A0 and the ideographic space U+3000 - white space to Unicode, ordinary characters to XML
+Special == {"&", "<", ">", "'", "\"", "EACUTE", "SMILE", "NBSP", "IDSP"}
+Lit(ch) == CASE ch = "EACUTE" -> "{c3}{a9}" [] ch = "SMILE" -> "{f0}{9f}{98}{80}" [] ch = "NBSP" -> "{c2}{a0}" [] ch = "IDSP" -> "{e3}{80}{80}" [] OTHER -> ch
 Ent(ch) == CASE ch = "&" -> "&amp;" [] ch = "<" -> "&lt;" [] ch = ">" -> "&gt;" [] ch = "'" -> "&apos;" [] ch = "\"" -> "&quot;"
-             [] ch = "EACUTE" -> "&#233;" [] ch = "SMILE" -> "&#128512;" [] OTHER -> ch
+             [] ch = "EACUTE" -> "&#233;" [] ch = "SMILE" -> "&#128512;" [] ch = "NBSP" -> "&#160;" [] ch = "IDSP" -> "&#12288;" [] OTHER -> ch
 Dec(ch) == CASE ch = "&" -> "&#38;" [] ch = "<" -> "&#60;" [] ch = ">" -> "&#62;" [] ch = "'" -> "&#39;" [] ch = "\"" -> "&#34;"
-             [] ch = "EACUTE" -> "&#233;" [] ch = "SMILE" -> "&#128512;" [] OTHER -> ch
+             [] ch = "EACUTE" -> "&#233;" [] ch = "SMILE" -> "&#128512;" [] ch = "NBSP" -> "&#160;" [] ch = "IDSP" -> "&#12288;" [] OTHER -> ch
 Hex(ch) == CASE ch = "&" -> "&#x26;" [] ch = "<" -> "&#x3c;" [] ch = ">" -> "&#x3E;" [] ch = "'" -> "&#x27;" [] ch = "\"" -> "&#x22;"
-             [] ch = "EACUTE" -> "&#xe9;" [] ch = "SMILE" -> "&#x1F600;" [] OTHER -> ch
+             [] ch = "EACUTE" -> "&#xe9;" [] ch = "SMILE" -> "&#x1F600;" [] ch = "NBSP" -> "&#xa0;" [] ch = "IDSP" -> "&#x3000;" [] OTHER -> ch
 \* what XML allows literally: '&' and '<' never; a quote only inside the other kind of quotes
 MayBeLiteral(ch, ctx) == ch \notin {"&", "<"} /\ ~(ctx = "dq" /\ ch = "\"") /\ ~(ctx = "sq" /\ ch = "'")
 EncChar(ch, mode, ctx) ==
@@ -43,7 +44,7 @@ RootAttrs(xsd) == <<A("xsi:schemaLocation", S("http://autosar.org/schema/r4.0 " 
 \* D1: packages, elements, enum / pattern / reference values, attributes, comments, mixed content with every special character
 D1 == E(1, "AUTOSAR", RootAttrs("AUTOSAR_00050.xsd"), <<Ch(
         E(2, "AR-PACKAGES", <<>>, <<Ch(
-          E(3, "AR-PACKAGE", <<A("UUID", <<"u", "&", "1">>)>>, <<
+          E(3, "AR-PACKAGE", <<A("UUID", <<"NBSP", "u", "&", "1", "IDSP">>)>>, <<
              Ch(Leaf(4, "SHORT-NAME", S("a"))),
              Ch(E(5, "DESC", <<>>, <<Ch(E(6, "L-2", <<A("L", S("EN"))>>,
                     <<Tx(<<"x", "&", "y", " ", "<", "t", ">", " ", "'", "\"", " ", "EACUTE", "SMILE">>),
@@ -51,7 +52,7 @@ D1 == E(1, "AUTOSAR", RootAttrs("AUTOSAR_00050.xsd"), <<Ch(
                       Ch(EC(7, "TT", <<>>, "note", <<Tx(S("tech"))>>)), Tx(<<" ", "e", "n", "d">>)>>))>>)),
              Ch(Leaf(8, "CATEGORY", S("TXT"))),
              Ch(E(21, "ADMIN-DATA", <<>>, <<Ch(E(25, "DOC-REVISIONS", <<>>, <<Ch(E(26, "DOC-REVISION", <<>>,
-                    <<Ch(Leaf(27, "REVISION-LABEL", <<"1", ".", "0", ".", "0", ";", "a", "&", "b">>))>>))>>)), Ch(E(22, "SDGS", <<>>, <<Ch(E(23, "SDG", <<A("GID", S("g"))>>,
+                    <<Ch(Leaf(27, "REVISION-LABEL", <<"1", ".", "0", ".", "0", ";", "a", "&", "l", "t", ";", "b">>))>>))>>)), Ch(E(22, "SDGS", <<>>, <<Ch(E(23, "SDG", <<A("GID", S("g"))>>,
                     <<Ch(E(24, "SD", <<A("GID", <<"k", "EACUTE", "&">>)>>, <<Tx(<<" ", " ", "k", "e", "e", "p", "&", "EACUTE", " ">>)>>))>>))>>))>>)),
              Ch(E(9, "ELEMENTS", <<>>, <<
                  Ch(EC(10, "SYSTEM-SIGNAL", <<>>, " a signal ", <<Ch(Leaf(11, "SHORT-NAME", S("s"))), Ch(Leaf(12, "DYNAMIC-LENGTH", S("true")))>>)),
@@ -203,6 +204,11 @@ DefectsD1 == {
   <<1, "data after the root element", [k |-> "after", at |-> 0, p |-> "<!-- x -->trailing"]>>,
   <<1, "data after the root element", [k |-> "after", at |-> 0, p |-> "<?pi?><EXTRA/>"]>>,
   <<1, "data after the root element", [k |-> "after", at |-> 0, p |-> "\n<!-- x -->\n<AUTOSAR/>"]>>,
+  \* a comment over several lines with a > before a line end: the lines are counted once
+  <<1, "data after the root element", [k |-> "after", at |-> 0, p |-> "\n<!-- a > b\n c > d\n e -->\n<EXTRA/>"]>>,
+  <<1, "unknown element", [k |-> "lastchild", at |-> 9, p |-> "<!-- <A>\n<B>\n -->\n<BOGUS-ELEMENT/>"]>>,
+  \* an attribute that the root element does not have
+  <<1, "unknown attribute", [k |-> "attr", at |-> 1, p |-> "xmlns:vendor=\"urn:x\""]>>,
   \* an ampersand that starts no entity at all
   <<1, "malformed entity", [k |-> "text", at |-> 7, p |-> "R & D"]>>,
   <<1, "malformed entity", [k |-> "text", at |-> 7, p |-> "AT&T"]>>,
